@@ -98,6 +98,52 @@ def build_exh(seq):
     return ops, metas
 
 
+def scale_case(cid, rng, schema):
+    """A deep chain (depth 14), a wide level (40 siblings), long and odd names; then moves, renames and removals in it."""
+    ops, metas = [], []
+    n = 0
+
+    def create(parent, name):
+        nonlocal n
+        h = "c%d" % n
+        n += 1
+        if parent is None:
+            ops.append({"op": "create_root_crate", "name": FO.hx(name), "as": h})
+        else:
+            ops.append({"op": "create_sub_crate", "c": parent, "name": FO.hx(name), "as": h})
+        metas.append({"kind": "create", "h": h, "parent": parent, "name": FO.hx(name), "after": None})
+        return h
+
+    chain = [create(None, "deep root")]
+    for d in range(13):
+        chain.append(create(chain[-1], "level %d %s" % (d, "x" * (d * 20))))
+    wide_parent = chain[2]
+    wide = [create(wide_parent, "sib %03d" % i) for i in range(40)]
+    other = create(None, "n" * 300)
+    # move a mid-chain crate (with 9 descendants) under a wide sibling, then try the cycle, rename high up, remove low
+    for (kind, h, x) in (("set_parent", chain[4], wide[17]), ("set_parent", wide[17], chain[9]), ("set_name", chain[1], "renamed level"),
+                         ("set_parent", wide[3], other), ("remove", chain[8], None), ("set_parent", chain[3], None),
+                         ("remove", wide[20], None), ("set_name", wide[39], "sib 000"), ("remove", chain[0], None)):
+        if kind == "set_parent":
+            ops.append({"op": "set_parent", "c": h, "parent": x})
+            metas.append({"kind": "set_parent", "h": h, "parent": x})
+        elif kind == "set_name":
+            ops.append({"op": "set_name", "c": h, "name": FO.hx(x)})
+            metas.append({"kind": "set_name", "h": h, "name": FO.hx(x)})
+        else:
+            ops.append({"op": "remove_crate", "c": h})
+            metas.append({"kind": "remove_crate", "h": h})
+    # every step is observed; name lookups are limited to 25 names to keep the case affordable
+    full = [{"op": "create_temporary", "schema": schema}]
+    index = [None]
+    for i, op in enumerate(ops):
+        full.append(op)
+        index.append(i)
+        full.append({"op": "observe_all", "tracks": False, "max_names": 25})
+        index.append(None)
+    return {"id": cid, "schema": schema, "ops": full, "_metas": metas, "_index": index, "_scale": True}
+
+
 def opdesc(meta):
     k = meta["kind"]
     if k == "create":
@@ -287,6 +333,10 @@ def run(ctx):
         for k in range(per):
             cases.append(random_case("r%d" % n, ctx.rng, schema, 15 + (k % 6) * 5))
             n += 1
+    for schema in ALL_SCHEMAS:
+        cases.append(scale_case("s%d" % n, ctx.rng, schema))
+        n += 1
+    ctx.extra["scale_cases"] = len(ALL_SCHEMAS)
     alpha = exhaustive_alphabet()
     depth = 2 if ctx.tier == "quick" else 3
     nexh = 0
